@@ -18,7 +18,7 @@ _AnyNumber = Union[int, decimal.Decimal, 'NumberExpr']
 
 
 def _add_expr_from_value(value: decimal.Decimal) -> NumberAddExpr:
-    number_token = number.Number.from_value(abs(value))
+    number_token = number.Number.from_value(value.copy_abs())  # abs() would round to the context precision
     token_store = base.TokenStore.from_tokens([number_token])
     atom_expr: NumberAtomExpr
     if value < 0:
